@@ -55,7 +55,9 @@ def _run(ctx, ncases, rec):
       mujoco.mj_forward(mjm, mjd)
       m = mjw.put_model(mjm)
       d = mjw.put_data(mjm, mjd, nworld=1, naconmax=200, njmax=500)
-      mjw.forward(m, d)
+      # the constraint stage alone, on MuJoCo's own positions, velocities and CONTACTS (put_data copies them): differences of the
+      # collision stage (contact counts of multi-contact pairs: property C04) must not be charged to the constraint rows
+      mjw.make_constraint(m, d)
       acc.evals += 1
       acc.distinct.add((c, cone, jac))
       if (d.overflow.numpy() != 0).any():
@@ -64,13 +66,37 @@ def _run(ctx, ncases, rec):
       n = int(d.nefc.numpy()[0])
       cnt = (int(d.ne.numpy()[0]), int(d.nf.numpy()[0]), int(d.nl.numpy()[0]), n)
       ref = (int(mjd.ne), int(mjd.nf), int(mjd.nl), int(mjd.nefc))
+      keep = np.ones(n, dtype=bool)
+      only_non_eq = False
       if cnt != ref:
-        acc.find(f"row counts (ne,nf,nl,nefc) {cnt} differ from MuJoCo {ref}", "constraint.make_constraint", "counts", xml=xml, qpos=mjd.qpos.tolist())
-        continue
+        # an OBSERVED count mismatch is attributed to the known deviation only if it is exactly explained by it: equality rows whose
+        # Jacobian is identically zero (connect/weld between bodies that hang on the same weld root) are emitted here and dropped by
+        # MuJoCo; removing exactly those rows must give MuJoCo's counts, and the remaining rows are compared as usual
+        typ_w = d.efc.type.numpy()[0][:n]
+        if m.is_sparse:
+          ra, rn, Jv = d.efc.J_rowadr.numpy()[0][:n], d.efc.J_rownnz.numpy()[0][:n], d.efc.J.numpy()[0][0]
+          zero = np.array([not np.any(Jv[ra[r]: ra[r] + rn[r]] != 0) for r in range(n)])
+        else:
+          zero = ~np.any(d.efc.J.numpy()[0][:n, : mjm.nv] != 0, axis=1)
+        zero &= typ_w == 0   # equality rows only
+        nz = int(zero.sum())
+        dn = cnt[0] - ref[0]
+        if nz and 0 < dn <= nz and (cnt[0] - dn, cnt[1], cnt[2], cnt[3] - dn) == ref:
+          # MuJoCo dropped dn of the nz zero-Jacobian rows (those that are exactly zero in float64 too)
+          acc.find(f"{nz} equality row(s) with an identically zero Jacobian (connect/weld between bodies on one weld root) are emitted here, none in MuJoCo (counts {cnt} vs {ref})",
+                   "constraint._equality_connect/_equality_weld", "zero-jacobian-rows", xml=xml, qpos=mjd.qpos.tolist())
+          keep = ~zero if dn == nz else (typ_w != 0)
+          only_non_eq = dn != nz
+        else:
+          acc.find(f"row counts (ne,nf,nl,nefc) {cnt} differ from MuJoCo {ref}", "constraint.make_constraint", "counts", xml=xml, qpos=mjd.qpos.tolist())
+          continue
       def rows(typ, pos, mar, D, aref, fl):
         return sorted(zip(np.asarray(typ).tolist(), np.round(pos, 4).tolist(), np.round(mar, 4).tolist(), np.asarray(D).tolist(), np.asarray(aref).tolist(), np.round(fl, 4).tolist()))
-      a = rows(d.efc.type.numpy()[0][:n], d.efc.pos.numpy()[0][:n], d.efc.margin.numpy()[0][:n], d.efc.D.numpy()[0][:n], d.efc.aref.numpy()[0][:n], d.efc.frictionloss.numpy()[0][:n])
-      b = rows(mjd.efc_type[:n], mjd.efc_pos[:n], mjd.efc_margin[:n], mjd.efc_D[:n], mjd.efc_aref[:n], mjd.efc_frictionloss[:n])
+      a = rows(d.efc.type.numpy()[0][:n][keep], d.efc.pos.numpy()[0][:n][keep], d.efc.margin.numpy()[0][:n][keep], d.efc.D.numpy()[0][:n][keep], d.efc.aref.numpy()[0][:n][keep], d.efc.frictionloss.numpy()[0][:n][keep])
+      nr = int(mjd.nefc)
+      b = rows(mjd.efc_type[:nr], mjd.efc_pos[:nr], mjd.efc_margin[:nr], mjd.efc_D[:nr], mjd.efc_aref[:nr], mjd.efc_frictionloss[:nr])
+      if only_non_eq:
+        b = [r for r in b if r[0] != 0]
       ok = True
       # friction rows of elliptic contacts store pos=margin=includemargin (C stores 0): documented departure W5 -> compare D/aref/type only for those
       A = np.array([[r[0], r[3], r[4]] for r in sorted(a, key=lambda r: (r[0], r[3], r[4]))])
